@@ -30,7 +30,9 @@ def policy_fn(spec: str):
     return lambda req, rem: 1 + (rem * a + req) % b
 
 
-def rand_policy(rng) -> str:
+def rand_policy(rng, size: int = 0) -> str:
+    if size > 200_000:  # large archives: keep the number of raw reads (and the run time) bounded
+        return rng.choice(["f511", "f512", "f513", "f4096", "f65536", "m3,5000", "m7,700"])
     k = rng.random()
     if k < 0.45:
         return "f" + str(rng.choice([1, 2, 3, 7, 100, 511, 512, 513, 1000, 4096, 65536]))
@@ -294,7 +296,7 @@ class C23(Property):
         if single and replay.get("into_dir"):
             os.makedirs(dst)
         try:
-            status, info = run_forked(lambda: real_extract(data, spec, base, dst), 20)
+            status, info = run_forked(lambda: real_extract(data, spec, base, dst), 20 if len(data) < 200_000 else 90)
         except Hang as e:
             key = "truncation:makefile-copy-loop-never-ends" if cut and single and replay.get("into_dir") else f"{'truncation' if cut else 'chunking'}:hang"
             ctx.fail(key, f"{tag}: extract_tar_stream did not return ({e}); archive {len(data)} bytes, policy {spec}, cut {cut}", replay)
@@ -339,7 +341,7 @@ class C23(Property):
             src, base, arch = self.make_archives(ctx, i, simple, big)
             want_tree = snapshot(src)
             for writer, data in arch.items():
-                spec = rand_policy(rng)
+                spec = rand_policy(rng, len(data))
                 replay = {"op": "archive", "writer": writer, "policy": spec, "archive_hex": data.hex() if len(data) <= 40960 else None, "base": base,
                           "tree": {k: list(v) for k, v in list(want_tree.items())[:40]}}
                 ctx.case({"op": "archive", "writer": writer, "policy": spec, "bytes": len(data), "entries": len(want_tree)},
@@ -357,7 +359,7 @@ class C23(Property):
                     cuts = boundaries(data)
                     rng.shuffle(cuts)
                     for cut in cuts[:n_cuts]:
-                        spec2 = rand_policy(rng)
+                        spec2 = rand_policy(rng, len(data))
                         r2 = {**replay, "policy": spec2, "cut": list(cut)}
                         ctx.case({"op": "truncate", "writer": writer, "policy": spec2, "cut": cut, "bytes": len(data)},
                                  ("cut", data[:2048], cut, spec2), f"truncate:{cut[0]}")
